@@ -20,6 +20,11 @@ func encodeNumeric(content string, ecl ErrorCorrectionLevel) (*utils.BitList, *v
 	if vi == nil {
 		return nil, nil, errors.New("To much data to encode")
 	}
+	for _, r := range content {
+		if r < '0' || r > '9' {
+			return nil, nil, fmt.Errorf("\"%s\" can not be encoded as %s", content, Numeric)
+		}
+	}
 	res := new(utils.BitList)
 	res.AddBits(int(numericMode), 4)
 	res.AddBits(len(content), vi.charCountBits(numericMode))
